@@ -28,7 +28,9 @@ type cscript struct {
 	name    string
 	cfg     config
 	threads [][]string // per driver thread: operations ("r1:<msg>", "new:C", "d1")
-	rounds  int        // envelopes the receiver thread tries to take
+	setup   []string   // operations applied sequentially (to quiescence) before the threads start
+	rounds  int        // envelopes the receiver thread tries to take (0 = no receiver thread)
+	serial  bool       // oracle: the final want-lists must be those of some serial order of the calls
 	bq, bt  int        // deviation bound in the quick / thorough tier
 }
 
@@ -81,40 +83,14 @@ func (x *cexec) Main() {
 			ev.ret = x.tick()
 		}
 	}
+	for _, op := range sc.setup {
+		runOps(-1, []string{op})
+		vsched.WaitIdle()
+	}
 	// receiver: mirrors bitswap/server's task worker; may stay blocked at the end
-	vsched.GoNamed("receiver", false, func() {
-		for i := 0; i < sc.rounds; i++ {
-			ev := &cev{kind: "env", ret: -1, role: -1}
-			ev.start = x.tick()
-			x.evs = append(x.evs, ev)
-			one := vsched.Recv(w.e.Outbox())
-			env, ok := vsched.Recv2(one)
-			if !ok || env == nil {
-				continue
-			}
-			ev.role = w.role(env.Peer)
-			for _, b := range env.Message.Blocks() {
-				ev.blocks = append(ev.blocks, cidIdx(b.Cid()))
-			}
-			for _, bp := range env.Message.BlockPresences() {
-				if bp.Type == pb.Message_Have {
-					ev.haves = append(ev.haves, cidIdx(bp.Cid))
-				} else {
-					ev.donts = append(ev.donts, cidIdx(bp.Cid))
-				}
-			}
-			sort.Ints(ev.blocks)
-			sort.Ints(ev.haves)
-			sort.Ints(ev.donts)
-			ev.ret = x.tick()
-			sv := &cev{kind: "sent", role: ev.role, blocks: ev.blocks, haves: ev.haves, ret: -1}
-			sv.start = x.tick()
-			x.evs = append(x.evs, sv)
-			w.e.MessageSent(env.Peer, env.Message)
-			env.Sent()
-			sv.ret = x.tick()
-		}
-	})
+	if sc.rounds > 0 {
+		vsched.GoNamed("receiver", false, x.receiver)
+	}
 	// the main thread is caller 0 itself (fewer threads = fewer free scheduling choices)
 	for ti := 1; ti < len(sc.threads); ti++ {
 		ti := ti
@@ -150,6 +126,43 @@ func (x *cexec) Main() {
 	}
 	x.snapped = true
 	x.tick()
+}
+
+// receiver mirrors bitswap/server's task worker: take the next envelope, MessageSent, Sent.
+func (x *cexec) receiver() {
+	sc, w := x.sc, x.w
+	for i := 0; i < sc.rounds; i++ {
+		ev := &cev{kind: "env", ret: -1, role: -1}
+		ev.start = x.tick()
+		x.evs = append(x.evs, ev)
+		one := vsched.Recv(w.e.Outbox())
+		env, ok := vsched.Recv2(one)
+		if !ok || env == nil {
+			continue
+		}
+		ev.role = w.role(env.Peer)
+		for _, b := range env.Message.Blocks() {
+			ev.blocks = append(ev.blocks, cidIdx(b.Cid()))
+		}
+		for _, bp := range env.Message.BlockPresences() {
+			if bp.Type == pb.Message_Have {
+				ev.haves = append(ev.haves, cidIdx(bp.Cid))
+			} else {
+				ev.donts = append(ev.donts, cidIdx(bp.Cid))
+			}
+		}
+		sort.Ints(ev.blocks)
+		sort.Ints(ev.haves)
+		sort.Ints(ev.donts)
+		ev.ret = x.tick()
+		sv := &cev{kind: "sent", role: ev.role, blocks: ev.blocks, haves: ev.haves, ret: -1}
+		sv.start = x.tick()
+		x.evs = append(x.evs, sv)
+		vsched.Yield("receiver: envelope in hand, before MessageSent")
+		w.e.MessageSent(env.Peer, env.Message)
+		env.Sent()
+		sv.ret = x.tick()
+	}
 }
 
 func (x *cexec) AtEnd(*vsched.Result) {}
@@ -357,6 +370,18 @@ func (x *cexec) Check(res *vsched.Result) *eng.Violation {
 	if !x.snapped {
 		return nil
 	}
+	if x.sc.serial {
+		got := fmtLedger(x.final[0]) + " " + fmtLedger(x.final[1])
+		allowed := serialFinals(x.sc)
+		if !allowed[got] {
+			var as []string
+			for a := range allowed {
+				as = append(as, a)
+			}
+			sort.Strings(as)
+			return eng.V("wantlist-not-serializable", "MessageReceived", fmt.Sprintf("final want-lists (p1 p2) %s are not those of any serial order of the overlapping MessageReceived calls (serial orders on this same build give: %s)\n%s", got, strings.Join(as, " | "), logStr), "concurrent", "true", "same_peer", "true")
+		}
+	}
 	// limit and liveness at final quiescence (receiver still had rounds left?)
 	envs := 0
 	for _, e := range x.evs {
@@ -402,6 +427,36 @@ func (x *cexec) Check(res *vsched.Result) *eng.Violation {
 	return nil
 }
 
+// serialFinals runs the scenario's calls in every serial order (per-thread order kept) on the real
+// engine, one fresh sequential execution each, and returns the set of final want-lists.
+var serialCache = map[string]map[string]bool{}
+
+func serialFinals(sc *cscript) map[string]bool {
+	if m, ok := serialCache[sc.name]; ok {
+		return m
+	}
+	m := map[string]bool{}
+	var rec func(idx []int, acc []string)
+	rec = func(idx []int, acc []string) {
+		done := true
+		for t := range sc.threads {
+			if idx[t] < len(sc.threads[t]) {
+				done = false
+				n := append([]int{}, idx...)
+				n[t]++
+				rec(n, append(append([]string{}, acc...), sc.threads[t][idx[t]]))
+			}
+		}
+		if done {
+			x, _ := runSeq(sc.cfg, append(append([]string{}, sc.setup...), acc...), false)
+			m[fmtLedger(x.finalLedger[0])+" "+fmtLedger(x.finalLedger[1])] = true
+		}
+	}
+	rec(make([]int, len(sc.threads)), nil)
+	serialCache[sc.name] = m
+	return m
+}
+
 func concScripts() []*cscript {
 	base := config{L: 2, R: 16, T: 44}
 	one := config{L: 2, R: 16, T: 1}
@@ -414,6 +469,11 @@ func concScripts() []*cscript {
 		{name: "notify-race-silent", cfg: one, threads: [][]string{{"r1:bC3"}, {"new:C"}}, rounds: 1, bq: 1, bt: 1},
 		{name: "overflow-race", cfg: config{L: 1, R: 16, T: 1}, threads: [][]string{{"r1:bA1", "r1:bE4"}}, rounds: 2, bq: 1, bt: 2},
 		{name: "disconnect-race", cfg: one, threads: [][]string{{"r1:bA1"}, {"d1"}}, rounds: 2, bq: 0, bt: 1},
+		// the peer upgrades want-have -> want-block while the HAVE envelope is between outbox and MessageSent, then cancels
+		{name: "upgrade-vs-sent", cfg: config{L: 2, R: 0, T: 1}, threads: [][]string{{"r1:hB2!", "r1:bB2", "r1:xB"}}, rounds: 2, bq: 1, bt: 2},
+		// two messages of the SAME peer handled concurrently while its want-list {A1, B2} is full (all blocks
+		// present: with an absent one the engine's map-ordered size lookup makes executions irreproducible)
+		{name: "same-peer-overflow", cfg: config{L: 2, R: 16, T: 44}, setup: []string{"r2:bA1,bB2"}, threads: [][]string{{"r2:bE9"}, {"r2:xA,bD5"}}, rounds: 0, serial: true, bq: 1, bt: 2},
 		{name: "same-cid-two-peers-cancel", cfg: one, threads: [][]string{{"r1:bA1", "r1:xA"}, {"r2:bA1"}}, rounds: 2, bq: 0, bt: 1},
 	}
 }
